@@ -104,6 +104,38 @@ class Ctx:
     def note(self, text):
         self.notes.append(text)
 
+    def renamed(self, rule):
+        """A view of this context under which another property's rule set reports as `rule` of this property (shared
+        obligations: the same construct decides a clause of both properties)."""
+        return _Renamed(self, rule)
+
+
+class _Renamed:
+    def __init__(self, ctx, rule):
+        self._ctx = ctx
+        self._rule = rule
+
+    def __getattr__(self, name):
+        return getattr(self._ctx, name)
+
+    def rule(self, rid, text):
+        pass
+
+    def fn(self, qual, rule=None):
+        return self._ctx.fn(qual, self._rule)
+
+    def ob(self, rule, construct, ok, *a, **kw):
+        return self._ctx.ob(self._rule, construct, ok, *a, **kw)
+
+    def need(self, cond, rule, what):
+        return self._ctx.need(cond, self._rule, what)
+
+    def floor(self, rule, count, minimum, what=""):
+        return self._ctx.floor(self._rule, count, minimum, what)
+
+    def renamed(self, rule):
+        return _Renamed(self._ctx, rule)
+
 
 def load_known():
     path = os.path.join(VERIF, "known_findings.json")
